@@ -348,7 +348,7 @@ MANIFEST = {
             "both conventions and both result forms, random pairs, and every call made indirectly by Feature construction, "
             "astuple, import and query building) is judged by an arithmetic specification written from the statement; the "
             "overlap clause and the stored bin column are checked on boundary-directed intervals. Held means: no executed "
-            "call disagreed. Exhaustive only over the boundary set, exploratory elsewhere.",
+            "call disagreed. Exhaustive only over the boundary set, exploratory elsewhere. Also: the bin stored on insert after coordinates were edited (transform, fetched-edited-replaced), the bin of Feature objects gffutils constructs itself (gaps), and a repeated identical call after the caller emptied the returned set.",
     "note": "Trusted: the spec in gvmon/models/binspec.py, icontract, CPython. Not covered: coordinates never generated "
             "(the integer line is sampled away from boundaries).",
 }
